@@ -719,13 +719,19 @@ LEX = {
     'DateTime': ('dateTime', ['2020-01-01T00:00:00', '2020-01-01T00:00:00Z', '2020-01-01T00:00:00+02:00', '2020-01-01T00:00:00.5Z',
                               '2020-01-01T00:00:00-04:49', '2020-01-01T00:00:00Zjunk', '2020-01-01T00:00:00+02:00x',
                               '2020-01-01T00:00:00 ', '2020-01-01T00:00:00+0200', '2020-01-01', 'abc', '2020-01-01T00:00',
-                              '2020-1-01T00:00:00', '20-01-01T00:00:00Z']),
+                              '2020-1-01T00:00:00', '20-01-01T00:00:00Z', '2020-13-01T00:00:00Z', '2020-02-30T00:00:00',
+                              '2020-01-01T25:00:00Z', '2020-01-01T00:00:00+24:00', '0000-01-01T00:00:00Z']),
     'Date': ('date', ['2020-01-05', '2020-01-05Z', '2020-01-05+02:00', '2020-01-05junk', '2020-01-05Zjunk', '2020-1-5',
-                      '2020-01-5', 'abc', '2020-01', '05-01-2020']),
-    'Time': ('time', ['12:00:00', '12:00:00.5', '23:59:59.999999', '12:00:00junk', '12:00', 'abc', '1:00:00', '12:00:00.']),
+                      '2020-01-5', 'abc', '2020-01', '05-01-2020', '2020-02-30', '2020-02-30Z', '2020-13-01+02:00']),
+    'Time': ('time', ['12:00:00', '12:00:00.5', '23:59:59.999999', '12:00:00junk', '12:00', 'abc', '1:00:00', '12:00:00.',
+                      '25:00:00', '12:61:00', '12:00:61']),
     'Duration': ('duration', ['P1D', 'PT1S', 'PT0.5S', '-P1DT2H', 'P1Djunk', 'PT1x5S', 'PT', 'P', 'xyz', 'P1S', 'PT1D', '1D', 'P1DT']),
     'Boolean': ('boolean', ['true', 'false', '1', '0', 'maybe', 'yes', '2', 'TRUE', 'tru', 'truex']),
     'Integer': ('integer', ['5', '-5', '+5', '007', '5x', '5.0', '1e3', '0x10', 'abc', '1_0', '--5']),
+    'Decimal': ('decimal', ['1.5', '-1.5', '+1.5', '1.', '.5', '007.50', '1E+1', '1e3', 'NaN', 'sNaN', 'Infinity', '-Infinity',
+                            'abc', '1_0', '1,5', '1.5x', '--1']),
+    'Double': ('double', ['1.5', '-1.5', '1e3', '1E+3', '1.5E-3', 'NaN', 'INF', '-INF', 'inf', 'nan', 'Infinity', '-inf',
+                          'abc', '1_0', '0x10', '1.5x', '.5', '5.']),
 }
 
 def lex_shape(tn, lit):
@@ -744,8 +750,14 @@ def lex_shape(tn, lit):
             return 'one-digit-month-or-day'
         if tn == 'Duration' and m and m.end() == len(lit):
             return 'degenerate-duration-without-components'
-    if tn == 'Integer' and _re.fullmatch(r'[+-]?\d+(_\d+)+', lit):
+        if tn in ('DateTime', 'Date', 'Time') and m and m.end() == len(lit):
+            return 'field-out-of-range'        # month 13, 30 February, hour 25, offset +24:00 ...
+    if tn in ('Integer', 'Decimal', 'Double') and _re.fullmatch(r'[+-]?\d+(_\d+)+', lit):
         return 'underscore-digit-separator'
+    if tn == 'Decimal' and _re.fullmatch(r'[+-]?(\d+\.?\d*|\.\d+)[eE][+-]?\d+', lit):
+        return 'exponent-notation'
+    if tn == 'Double' and lit.lower().lstrip('+-') in ('inf', 'infinity', 'nan') and lit not in ('INF', '-INF', 'NaN'):
+        return 'python-spelling-of-special-value'
     return 'literal:' + lit
 
 def family_lexical(check, tier):
@@ -1355,17 +1367,32 @@ def family_null_members(check, tier):
 
 def run(check):
     check.rule = ('generated one-argument services around each type under test (every fixed-width integer class, '
-                  'arbitrary-size integers, customised range/enumeration/nillable facets, Unicode length/pattern/values, '
-                  'occurrence bounds), values on/inside/outside every boundary, at top-level / nested field / array member / '
-                  'XML attribute, through XmlDocument, Soap11, JsonDocument, YamlDocument, MessagePackDocument (ServerBase) and '
-                  'HttpRpc (WSGI GET); a case is distinct by (type, facets, value, protocol, position)')
+                  'arbitrary-size integers, Unicode, Decimal, Double, Boolean, DateTime, Date, Time, Duration, Uuid, Enum with '
+                  'customised range / length / pattern / enumeration / nillable / occurrence facets), values on/inside/outside '
+                  'every boundary in their canonical wire form and in the alternative document forms (byte strings, numbers '
+                  'for text-encoded types and the reverse, native YAML timestamps, lists), null and absent, at top-level / '
+                  'nested field / array member / XML attribute / array-valued and object-valued member, through XmlDocument, '
+                  'Soap11, JsonDocument, YamlDocument, MessagePackDocument (ServerBase) and HttpRpc (WSGI GET); a case is '
+                  'distinct by (family, type, facets, value or shape, protocol, position)')
     check.trusted = list(lib.COMMON_TRUSTED) + [
         'translator harness/translate/numtypes.py (validate_native / validate_string of the number models -> Gen/NumTypes.v)',
-        'the Python reference predicate ref_conforms_* in harness/c05.py (the specification as used by the direct oracle)',
+        'translator harness/translate/facettypes.py (validate_string / validate_native of ModelBase, SimpleModel, Unicode, '
+        'DateTime, Time and re_match_with_span -> Gen/FacetTypes.v; the statement shapes it pins: the naive-value rule of '
+        'DateTime.validate_native and the fullmatch branch of re_match_with_span)',
+        'the Python reference predicates ref_conforms_* and the expectation tables of harness/c05.py (the specification as '
+        'used by the direct oracle); lxml XMLSchema as the judge of lexical validity',
+        'the date/time readers and printers of coq/C08/DtModel.v (tied and proved by C08) as the from_unicode of the date/time paths',
     ]
-    check.assumptions = ['date/time range facets and Decimal digit facets are exercised by the oracle only where listed; '
-                         'the theorems cover the integer family, None handling and occurrence counting',
-                         'patterns are compared against Python re.fullmatch (Spyne uses match + span == whole string)']
+    check.assumptions = [
+        'the regular expression engine is the oracle fullm of the Unicode theorems (re.Pattern.fullmatch); its answers travel '
+        'in the correspondence cases',
+        'Unicode attributes encoding / format / cast / empty_is_none are at their defaults in the modelled paths (the '
+        'translator checks the class defaults)',
+        'range bounds of DateTime are timezone-aware as the documentation demands (a naive bound raises TypeError in Python); '
+        'UTC offsets are whole minutes; spyne.LOCAL_TZ has a fixed offset (read by the translator)',
+        'Decimal and Double ranges, Boolean, Duration, Uuid, Enum and the alternative document forms are decided by the '
+        'direct oracle only; Decimal total_digits / fraction_digits are not part of the property text and are not checked',
+        'HttpRpc is driven through WSGI GET query strings only (werkzeug is absent: no form bodies)']
     check.regen(['numtypes', 'facettypes'])
     check.check_sources()
     check.prove('Props.C05', THEOREMS)
@@ -1390,12 +1417,54 @@ def replay(check, path):
     r = json.load(open(path))
     print(json.dumps(r, indent=1))
     rp = r.get('replay', {})
-    if 'protocol' in rp and 'class' in rp:
+    if 'type_expr' in rp and 'payload' in rp:
+        # families forms / null / array-occurs: the type, the array and the request are expressions over ns()
+        T = mk_type(rp['type_expr'])
+        h = Harness(T, array=mk_type(rp['array_expr']) if rp.get('array_expr') else None)
+        payload = eval(rp['payload'], dict(ns()))
+        print('now:', h.run(rp['protocol'], rp['position'], payload))
+    elif 'protocol' in rp and 'class' in rp:
         import spyne.model.primitive.number as P
         T = getattr(P, rp['class'])
         if rp.get('attrs'):
             T = T.customize(**rp['attrs'])
         h = Harness(T)
+        if rp.get('form') in ('null', 'absent'):
+            payload = (rp['form'],)
+        else:
+            payload = ('items', [rp['value']]) if rp['position'] == 'arr' else ('val', rp['value'])
+        print('now:', h.run(rp['protocol'], rp['position'], payload))
+    elif 'attrs' in rp and 'value' in rp and 'protocol' in rp:
+        from spyne.model.primitive import Unicode
+        h = Harness(Unicode.customize(**rp['attrs']))
         payload = ('items', [rp['value']]) if rp['position'] == 'arr' else ('val', rp['value'])
         print('now:', h.run(rp['protocol'], rp['position'], payload))
+    elif 'literal' in rp and ('type' in rp or 'facet' in rp):
+        import spyne.model.primitive as P
+        if 'facet' in rp:
+            import datetime as dtm
+            T = P.DateTime.customize(**{rp['facet']: dtm.datetime(2020, 1, 1, tzinfo=dtm.timezone.utc)})
+        else:
+            T = getattr(P, rp['type'])
+        h = Harness(T)
+        for proto in ([rp['protocol']] if 'protocol' in rp else rp.get('protocols', ['xml'])):
+            print('now (%s):' % proto, h.run(proto, rp.get('position', 'top'), ('val', rp['literal'])))
+    elif rp.get('family') == 'null-member' or 'min_occurs' in rp:
+        # these families build their own services: run the family again and show what it reports for this key
+        class Rec(object):
+            tier = check.tier
+            rng = check.rng
+            def count(self, *a, **k): pass
+            def sample(self, *a, **k): pass
+            def fail(self, key, what, replay):
+                if key == r.get('key'):
+                    print('now:', what)
+        rec = Rec()
+        if rp.get('family') == 'null-member':
+            family_null_members(rec, check.tier)
+        elif 'times' in rp:
+            family_occurs_single(rec, check.tier)
+        else:
+            family_occurs(rec, check.tier)
+            lib._QUEUE[:] = []
     return 0
